@@ -237,7 +237,8 @@ class Component( ComponentLevel7 ):
 
     # Now we put back the provided upblk metadata to parent and top
     for blk, obj_name in provided_upblk_reads:
-      parent._dsl.upblk_reads[blk].add( eval(obj_name) )
+      # the block may belong to an ancestor of parent
+      top._dsl.all_upblk_hostobj[blk]._dsl.upblk_reads[blk].add( eval(obj_name) )
 
     for blk, obj_name in provided_upblk_writes:
       parent._dsl.upblk_writes[blk].add( eval(obj_name) )
@@ -340,14 +341,23 @@ class Component( ComponentLevel7 ):
       # must save the information (upA reads B) to avoid bugs or
       # explicitly re-elaborating the parent.
 
-      for blk, reads in parent._dsl.upblk_reads.items():
-        assert blk in top._dsl.all_upblk_reads
-        to_save = set()
-        for x in reads:
-          if x in removed_connectables:
-            to_save.add( x )
-            saved_upblk_reads.append( (blk, repr(x)) )
-        parent._dsl.upblk_reads[blk] -= to_save
+      # Ports may be read from any level above: an update block of an
+      # ancestor of the parent can read an outport of the deleted component
+      hosts = []
+      host  = parent
+      while host is not None:
+        hosts.append( host )
+        host = host.get_parent_object()
+
+      for host in hosts:
+        for blk, reads in host._dsl.upblk_reads.items():
+          assert blk in top._dsl.all_upblk_reads
+          to_save = set()
+          for x in reads:
+            if x in removed_connectables:
+              to_save.add( x )
+              saved_upblk_reads.append( (blk, repr(x)) )
+          host._dsl.upblk_reads[blk] -= to_save
 
       for blk, writes in parent._dsl.upblk_writes.items():
         assert blk in top._dsl.all_upblk_writes
